@@ -13,7 +13,8 @@
        "$".  Without it the clause "agrees in help text and label-name sets" is FALSE for the code:
        [dimhash_refuted] (known finding dimhash-0xff) and [dimhash_dollar_refuted] (dimhash-dollar). *)
 From Coq Require Import ZArith List Bool.
-From Verif Require Import Base.Str Model.Registry Proofs.C08_proofs.
+From Coq Require Import Sorted Permutation.
+From Verif Require Import Base.Str Model.Registry Proofs.C08_proofs Model.RegistryLin Base.Conc Proofs.C08_conc.
 Import ListNotations.
 Open Scope Z_scope.
 
@@ -21,13 +22,13 @@ Open Scope Z_scope.
    [spec_check] = accepted / AlreadyRegistered(original collector) / rejected exactly as the property
    demands, the reported error kind is justified, Unregister answers as specified, gathered names are
    those of the currently registered collectors; [obs_matches] restates it outcome by outcome. *)
-Theorem register_spec : forall (hash : str -> str) (ops : list op),
+Theorem register_spec : forall (hash : str -> str) (ops : list Registry.op),
   Forall built (all_descs ops) -> ops_unambiguous ops = true -> collision_free hash (keys_of ops) ->
   spec_check ops (run hash ops) = true /\ Forall2 obs_matches (run hash ops) (spec_run ops).
 Proof. exact C08_proofs.register_spec_built_lemma. Qed.
 
 (* the same for any descriptors satisfying what NewDesc establishes *)
-Theorem register_spec_wf : forall (hash : str -> str) (ops : list op),
+Theorem register_spec_wf : forall (hash : str -> str) (ops : list Registry.op),
   ops_wf ops -> ops_unambiguous ops = true -> collision_free hash (keys_of ops) ->
   spec_check ops (run hash ops) = true /\ Forall2 obs_matches (run hash ops) (spec_run ops).
 Proof. exact C08_proofs.register_spec_lemma. Qed.
@@ -68,7 +69,7 @@ Theorem no_desc_unchecked : forall hash r cid,
 Proof. exact C08_proofs.no_desc_unchecked_lemma. Qed.
 
 (* order and multiplicity of the emitted descriptors do not change any outcome of the sequence *)
-Theorem register_order_multiplicity_insensitive : forall (hash : str -> str) (ops ops' : list op),
+Theorem register_order_multiplicity_insensitive : forall (hash : str -> str) (ops ops' : list Registry.op),
   Forall2 op_equiv ops ops' ->
   ops_wf ops -> ops_unambiguous ops = true -> collision_free hash (keys_of ops) ->
   Forall2 obs_same (run hash ops) (run hash ops').
@@ -137,3 +138,90 @@ Example register_spec_example :
     BGather [[109]; [112; 95; 110]] ] /\
   spec_check ex_ops (run hash_id ex_ops) = true.
 Proof. exact C08_proofs.ex_ops_run. Qed.
+
+(* ====================================================================================================
+   "atomically": Register / Unregister under concurrency (Model/RegistryLin.v, Proofs/C08_conc.v).
+   reg_machine hash is registry.go at lock granularity: one step per operation on r.mtx, the code of a
+   critical section runs with the step that acquires the lock; Describe is thread-local.
+     Register   = Lock [validate + commit] Unlock
+     Unregister = RLock [probe] RUnlock (false if absent); Lock [re-check; deletes] Unlock
+   The theorems hold for every hash, every number of threads, ALL programs and EVERY schedule.
+   ==================================================================================================== *)
+
+(* Real-time linearizability w.r.t. the sequential model (which register_spec ties to the property):
+   replaying register/unregister over the calls in the order of their responses reproduces every result,
+   that order never puts a call after one that was invoked only after it had returned (last clause), every
+   call takes at least one step, and when no writer is inside the shared registry is the replayed state. *)
+Theorem registry_linearizable_realtime : forall (hash : str -> str) (progs : list (list qop)) (sched : list Z),
+  let M := reg_machine hash in
+  let c := run_sched M (init_config M q_init progs) sched in
+  (exists r, seq_replay (reg_spec_step hash) empty_registry (map (@c_op M) (hist c)) = (r, map (@c_ret M) (hist c)) /\
+             (q_w (sh c) = false -> q_reg (sh c) = r)) /\
+  StronglySorted res_lt (hist c) /\
+  Forall (fun k : call M => 0 <= c_inv k < c_res k /\ c_res k <= now c) (hist c) /\
+  (forall i j a b, nth_error (hist c) i = Some a -> nth_error (hist c) j = Some b ->
+     c_res a <= c_inv b -> (i < j)%nat).
+Proof. exact C08_conc.registry_linearizable_realtime_lemma. Qed.
+
+(* Descriptor ids stay unique under any mix of concurrent Register and Unregister calls (any hash: ids are
+   the hashes): (1) whenever no writer is inside, no two registered collectors share a descriptor id;
+   (2) two successful Register calls for collectors with a common descriptor id are separated, in the
+   linearization, by an Unregister that answered true. *)
+Theorem registers_with_common_descriptor_at_most_one_succeeds :
+  forall (hash : str -> str) (progs : list (list qop)) (sched : list Z),
+  let M := reg_machine hash in
+  let c := run_sched M (init_config M q_init progs) sched in
+  (q_w (sh c) = false ->
+     forall i j e1 e2 x, nth_error (r_colls (q_reg (sh c))) i = Some e1 -> nth_error (r_colls (q_reg (sh c))) j = Some e2 ->
+       In x (fst e1) -> In x (fst e2) -> i = j) /\
+  (forall i j a b x, (i < j)%nat -> nth_error (hist c) i = Some a -> nth_error (hist c) j = Some b ->
+     c_ret a = RReg RNil -> c_ret b = RReg RNil -> In x (reg_ids hash (c_op a)) -> In x (reg_ids hash (c_op b)) ->
+     exists k u, (i < k < j)%nat /\ nth_error (hist c) k = Some u /\ c_ret u = RUn true).
+Proof. exact C08_conc.registers_unique_lemma. Qed.
+
+(* No deadlock: while a call is unfinished some thread can take a step *)
+Theorem registry_no_deadlock : forall (hash : str -> str) (progs : list (list qop)) (sched : list Z),
+  let M := reg_machine hash in
+  let c := run_sched M (init_config M q_init progs) sched in
+  all_done M c = false -> exists tid c', sched_step M c tid = Some c'.
+Proof. exact C08_conc.no_deadlock_lemma. Qed.
+
+(* The executable checker applied to the implementation's histories decides real-time linearizability
+   of ANY history of complete calls: sound and complete; and it accepts every history of the machine. *)
+Theorem reg_lin_check_sound : forall (hash : str -> str) (h : list (call (reg_machine hash))),
+  reg_lin_check hash h = true -> exists h', Permutation h' h /\ linearization_of hash empty_registry h'.
+Proof. exact C08_conc.reg_lin_check_sound_lemma. Qed.
+
+Theorem reg_lin_check_complete : forall (hash : str -> str) (h : list (call (reg_machine hash))),
+  (exists h', Permutation h' h /\ linearization_of hash empty_registry h') -> reg_lin_check hash h = true.
+Proof. exact C08_conc.reg_lin_check_complete_lemma. Qed.
+
+Theorem reg_lin_check_accepts_machine_histories : forall (hash : str -> str) (progs : list (list qop)) (sched : list Z),
+  reg_lin_check hash (hist (run_sched (reg_machine hash) (init_config (reg_machine hash) q_init progs) sched)) = true.
+Proof. exact C08_conc.reg_lin_check_machine_lemma. Qed.
+
+(* History.  Before commit d5949f3 the second critical section of Unregister deleted WITHOUT re-checking.
+   This machine (then with an unconditional delete step) exposed two schedules, found here:
+     rf_progs1 / rf_sched1:  T0: Register(c); Unregister(c) || T1: Unregister(c): both Unregister calls
+       answered true - no sequential order explains that (was: unregister_not_atomic_refuted);
+     rf_progs2 / rf_sched2:  T0: Register(c={n}); Unregister(c) || T1: Unregister(c); Register(d={n,y}): T0's late
+       deletes removed descriptor id n, by then owned by d, and a further collector with descriptor n was
+       accepted (was: unregister_window_breaks_uniqueness_refuted).
+   Fixed in d5949f3 (re-check under the write lock).  The same programs under the same schedules now: *)
+Example unregister_regression_both_true :
+  let M := reg_machine hash_id in
+  let c := run_sched M (init_config M q_init rf_progs1) rf_sched1 in
+  all_done M c = true /\
+  map (@c_ret M) (hist c) = [RReg RNil; RUn true; RUn false] /\
+  reg_lin_check hash_id (hist c) = true.
+Proof. exact C08_conc.unregister_regression1_lemma. Qed.
+
+Example unregister_regression_late_deletes :
+  let M := reg_machine hash_id in
+  let c := run_sched M (init_config M q_init rf_progs2) rf_sched2 in
+  all_done M c = true /\
+  map (@c_ret M) (hist c) = [RReg RNil; RUn true; RReg RNil; RUn false] /\
+  reg_lin_check hash_id (hist c) = true /\
+  map (fun e => fst (snd e)) (r_colls (q_reg (sh c))) = [1] /\
+  fst (register hash_id (q_reg (sh c)) 2 [rf_n]) = RDuplicate.
+Proof. exact C08_conc.unregister_regression2_lemma. Qed.
